@@ -135,13 +135,30 @@ def _elem_atom(a, idx, ranks):
             return _elem_setitem(a, idx, ranks)
         if a.name == "astype" and a.args:
             return _elem(a.args[0], idx, ranks)
+        if a.name == "reshape" and ranks.get("__identity_reshape__") and isinstance(a.args[0], Rat):
+            shp = a.args[1] if len(a.args) == 2 and isinstance(a.args[1], tuple) else a.args[1:]
+            if len(shp) == len(idx):
+                return _elem(a.args[0], idx, ranks)     # caller's contract: the operand already has this shape
     raise NoElement()
 
 
 def _elem_setitem(a, idx, ranks):
-    """element of `base` after `base[where] = value`, for stores that address whole rows / columns by constants"""
+    """element of `base` after `base[where] = value`, for stores that address whole rows / columns by constants, or a
+    leading block [0:a, 0:b, ...] (the element is read inside the block)"""
     base, where, val = a.args
     wt = where if isinstance(where, tuple) and not (where and where[0] == "slice") else (where,)
+    if any(w is Ellipsis for w in wt):
+        n_named = sum(1 for w in wt if w is not Ellipsis)
+        fill = len(idx) - n_named
+        if fill < 0:
+            raise NoElement()
+        wt2 = []
+        for w in wt:
+            if w is Ellipsis:
+                wt2.extend([("slice", Rat.const(0), None, None)] * fill)
+            else:
+                wt2.append(w)
+        wt = tuple(wt2)
     if len(wt) > len(idx):
         raise NoElement()
     use = idx[:len(wt)] if len(wt) == len(idx) else idx[:len(wt)]
@@ -150,8 +167,8 @@ def _elem_setitem(a, idx, ranks):
     for w, k in zip(wt, use):
         if isinstance(w, tuple) and w and w[0] == "slice":
             lo, hi, st = w[1], w[2], w[3]
-            if hi is None and st is None and (lo is None or (isinstance(lo, Rat) and lo.is_zero())):
-                sub.append(k)
+            if st is None and (lo is None or (isinstance(lo, Rat) and lo.is_zero())):
+                sub.append(k)           # [0:hi]: the generic element is read inside the stored block
                 continue
             raise NoElement()
         if isinstance(w, Rat) and w.is_const() and isinstance(k, Rat) and k.is_const():
